@@ -63,18 +63,18 @@ Definition dec_tx (l : list Z) : option tx :=
 
 Definition dec_prices (l : list Z) : option prices :=
   match l with
-  | [a; b; c; d; e; f; g; h; i; j; k; m; n; o; p; q; r; t] =>
+  | [a; b; c; d; e; f; g; h; i; j; k; m; n; o; p; q; r; t; pc; rc; rb] =>
     Some {| p_payload_byte := a; p_send := b; p_multisend_base := c; p_multisend_delta := d;
             p_ticker3 := e; p_ticker4 := f; p_ticker5 := g; p_ticker6 := h; p_ticker7 := i;
             p_create_token := j; p_recreate_token := k; p_mint := m; p_burn := n; p_lock := o;
-            p_redeem := p; p_create_multisig := q; p_edit_owner := r; p_failed := t |}
+            p_redeem := p; p_create_multisig := q; p_edit_owner := r; p_failed := t; p_pcoin := pc; p_prc := rc; p_prb := rb |}
   | _ => None
   end.
 
 Definition zero_prices : prices :=
   {| p_payload_byte := 0; p_send := 0; p_multisend_base := 0; p_multisend_delta := 0; p_ticker3 := 0; p_ticker4 := 0;
      p_ticker5 := 0; p_ticker6 := 0; p_ticker7 := 0; p_create_token := 0; p_recreate_token := 0; p_mint := 0; p_burn := 0;
-     p_lock := 0; p_redeem := 0; p_create_multisig := 0; p_edit_owner := 0; p_failed := 0 |}.
+     p_lock := 0; p_redeem := 0; p_create_multisig := 0; p_edit_owner := 0; p_failed := 0; p_pcoin := 0; p_prc := 0; p_prb := 0 |}.
 
 Definition ledger_init : st :=
   {| s_bal := []; s_nonce := []; s_coins := []; s_symowner := []; s_ncoins := 0; s_rpool := 0; s_used := []; s_msig := [];
@@ -98,6 +98,9 @@ Definition ledger_step (s : st) (o : list Z) : st * list Z :=
     | None => (s, [-1])
     end
   | [1; a; c; v] => (apply_eff s (EBal a c v), [0])
+  | [2; id; sym; ver; vol; maxs; mi; bu; has_owner; owner] =>   (* genesis coin *)
+    let s1 := apply_eff s (ENewCoin {| c_id := id; c_sym := sym; c_ver := ver; c_vol := vol; c_max := maxs; c_mint := zb mi; c_burn := zb bu |}) in
+    ((if zb has_owner then apply_eff s1 (EOwner sym owner) else s1), [0])
   | 10 :: mode :: r =>
     match dec_tx r with
     | None => (s, [-1])
